@@ -330,8 +330,8 @@ class Canon:
             try:
                 conds = ''.join(' if ' + self.p(c, frame, d, seen) for c in g.ifs)
                 kind = 'set' if isinstance(e, ast.SetComp) else 'seq'
-                return '%s[%s for %s%s]' % (kind, self.p(e.elt, frame, d, seen),
-                                            self._iter_p(g.iter, frame, d, seen), conds)
+                itp, c0 = flatten_iter(self._iter_p(g.iter, frame, d, seen))
+                return '%s[%s for %s%s]' % (kind, self.p(e.elt, frame, d, seen), itp, c0 + conds)
             finally:
                 self._comp_env.pop()
         if isinstance(e, ast.DictComp) and len(e.generators) == 1:
@@ -339,8 +339,9 @@ class Canon:
             self._comp_bind(e.generators, frame, d, seen)
             try:
                 conds = ''.join(' if ' + self.p(c, frame, d, seen) for c in g.ifs)
+                itp, c0 = flatten_iter(self._iter_p(g.iter, frame, d, seen))
                 return 'map[%s: %s for %s%s]' % (self.p(e.key, frame, d, seen), self.p(e.value, frame, d, seen),
-                                                 self._iter_p(g.iter, frame, d, seen), conds)
+                                                 itp, c0 + conds)
             finally:
                 self._comp_env.pop()
         if isinstance(e, ast.Call):
@@ -445,7 +446,9 @@ class Canon:
         if isinstance(target, (ast.Tuple, ast.List)) and all(
                 isinstance(x, ast.Name) for x in target.elts):
             j = [x.id for x in target.elts].index(name)
-            return '%s[%d]' % (_elem_of(self._iter_p(it, frame, d, s2)), j)
+            el = _elem_of(self._iter_p(it, frame, d, s2))
+            comp = tuple_component(el, j)
+            return comp if comp is not None else '%s[%d]' % (el, j)
         return 'elem.part(%s)' % self.p(it, frame, d, s2)
 
     def _comp_bind(self, gens, frame, d, seen):
@@ -617,11 +620,50 @@ class Canon:
 def _elem_of(it):
     """a generic element of the iterable with provenance `it`: elements of a mapped
     sequence seq[F for I] are F itself (F already speaks about elem(I))"""
-    import re as _re
-    m = _re.fullmatch(r'seq\[(.*) for ((?:(?! for ).)*?)( if .*)?\]', it)
-    if m and ' for ' not in m.group(2):
-        return m.group(1)
+    sp = split_seq(it)
+    if sp is not None:
+        return sp[0]
     return 'elem(%s)' % it
+
+
+def tuple_component(s, j):
+    """component j of a tuple display string '(a, b, c)'; None when s is not one"""
+    if not (s.startswith('(') and s.endswith(')')):
+        return None
+    depth = 0
+    for i, ch in enumerate(s):
+        if ch in '([{':
+            depth += 1
+        elif ch in ')]}':
+            depth -= 1
+            if depth == 0 and i != len(s) - 1:
+                return None
+    body = s[1:-1]
+    parts, depth, cur = [], 0, ''
+    for ch in body:
+        if ch in '([{':
+            depth += 1
+        elif ch in ')]}':
+            depth -= 1
+        if ch == ',' and depth == 0:
+            parts.append(cur.strip())
+            cur = ''
+        else:
+            cur += ch
+    if cur.strip():
+        parts.append(cur.strip())
+    if len(parts) < 2 or j >= len(parts):
+        return None
+    return parts[j]
+
+
+def flatten_iter(itp):
+    """a comprehension over seq[E for I if C] ranges over I (its variable already stands for E)"""
+    sp = split_seq(itp)
+    if sp is None:
+        return itp, ''
+    inner, conds = flatten_iter(sp[1])
+    return inner, conds + sp[2]
 
 
 def split_seq(s):
